@@ -31,7 +31,7 @@ PROFILES = {
                          [("plaintext", False, False, "CODE", "WARN"), ("numpydoc", True, True, "DOCSTRING", "IGNORE"),
                           ("google", False, True, "CODE", "IGNORE"), ("rest", True, False, "DOCSTRING", "WARN")]]),
     "C02": dict(gen=dict(kw_rate=0.25, docs=0.6), options=[dict(convert=False), dict(convert=True)]),
-    "C03": dict(gen=dict(private_rate=0.3), options=[dict()]),
+    "C03": dict(gen=dict(private_rate=0.3, chains=0.5), options=[dict()]),
     "C04": dict(gen=dict(private_rate=0.4, unique_top_names=False, decoys=0.6), options=[dict()]),
     "C05": dict(gen=dict(docs=0.0, infer_returns=0.0), options=[dict()]),
     "C06": dict(gen=dict(docs=0.0), options=[dict(), dict(convert=True)]),
